@@ -475,7 +475,7 @@ def in_language(expr, compiled=False):
     for node in ast.walk(tree):
         if isinstance(node, (ast.Expression, ast.Constant, ast.List, ast.Tuple, ast.Name, ast.Load, ast.Store, ast.BoolOp, ast.And,
                              ast.Or, ast.Compare, ast.GeneratorExp, ast.comprehension, ast.keyword)):
-            if isinstance(node, ast.comprehension) and (node.ifs or not isinstance(node.target, ast.Name)):
+            if isinstance(node, ast.comprehension) and not isinstance(node.target, ast.Name):
                 return False
             if isinstance(node, ast.comprehension) and node.target.id in NAMESPACE_NAMES:
                 return False  # documented restriction: a generator variable must not overwrite an existing name
